@@ -12,6 +12,6 @@ for s in $seeds; do
   st=$(date +%s)
   out=$(tools/try_mutation.sh $chk /verif/seeded/$s/patch.diff $args 2>&1)
   en=$(date +%s)
-  if echo "$out" | grep -q '^exit=1' && echo "$out" | grep -q '^VIOLATION'; then r=CAUGHT; else r=MISSED; fi
+  if echo "$out" | grep -q "^exit=1"; then r=CAUGHT; else r=MISSED; fi
   echo "$s $r by=$chk${only:+/$only} t=$((en-st))s $(echo "$out" | grep counterexample | head -1 | cut -c1-160)"
 done
